@@ -483,13 +483,15 @@ Proof.
                                           let in_waits := (c_in_status c1 =? c_HTP_STREAM_DATA_OTHER) &&
                                                 match c_in_tx c1, c_out_tx c1 with
                                                 | Some a, Some b => (a =? b)%nat | None, None => true | _, _ => false end in
-                                          if negb hybrid && in_waits then (ST_DATA_OTHER, c1)
+                                          let wrap (ret : st) (c : connp) : st * connp :=
+                                            match tx_finalize cb g i c with
+                                            | (ST_OK, c2) => (ret, c2 <| c_out_tx := None |> <| c_out_state := RES_IDLE |>)
+                                            | r => r
+                                            end in
+                                          if negb hybrid && in_waits then wrap ST_DATA_OTHER c1
                                           else if negb hybrid && c_out_data_other_at_tx_end c1
-                                          then (ST_DATA_OTHER, c1 <| c_out_data_other_at_tx_end := false |>)
-                                          else match tx_finalize cb g i c1 with
-                                               | (ST_OK, c2) => (ST_OK, c2 <| c_out_tx := None |> <| c_out_state := RES_IDLE |>)
-                                               | r => r
-                                               end
+                                          then wrap ST_DATA_OTHER (c1 <| c_out_data_other_at_tx_end := false |>)
+                                          else wrap ST_OK c1
                                         | _ => (rc, c1)
                                         end)) = new ++ c_events c /\
                         bd_marker_ok H_RESPONSE_BODY_DATA H_RESPONSE_COMPLETE (rev new) false = true).
@@ -497,12 +499,18 @@ Proof.
     assert (Base : exists new, c_events c1 = new ++ c_events c /\ bd_marker_ok H_RESPONSE_BODY_DATA H_RESPONSE_COMPLETE (rev new) false = true).
     { exists new1. split; [exact E1|]. rewrite <- (app_nil_r (rev new1)). apply (M1 []). constructor. }
     destruct rc; cbn [snd]; try exact Base.
-    cbv zeta. destruct (negb hybrid && _); [exact Base|]. destruct (negb hybrid && _); [exact Base|].
-    destruct (bd_tx_finalize_ext cb g i c1) as (X & EX & FX).
-    assert (G : exists new, c_events (snd (tx_finalize cb g i c1)) = new ++ c_events c /\
-                  bd_marker_ok H_RESPONSE_BODY_DATA H_RESPONSE_COMPLETE (rev new) false = true).
-    { exists (X ++ new1). split; [rewrite EX, E1; apply app_assoc|]. rewrite rev_app_distr. apply M1. exact FX. }
-    destruct (tx_finalize cb g i c1) as [[] c2]; cbn [snd] in *; exact G. }
+    cbv zeta.
+    assert (W : forall ret c', c_events c' = c_events c1 ->
+              exists new, c_events (snd (match tx_finalize cb g i c' with
+                                         | (ST_OK, c2) => (ret, c2 <| c_out_tx := None |> <| c_out_state := RES_IDLE |>)
+                                         | r => r end)) = new ++ c_events c /\
+                          bd_marker_ok H_RESPONSE_BODY_DATA H_RESPONSE_COMPLETE (rev new) false = true).
+    { intros ret c' Ec. destruct (bd_tx_finalize_ext cb g i c') as (X & EX & FX).
+      assert (G : exists new, c_events (snd (tx_finalize cb g i c')) = new ++ c_events c /\
+                    bd_marker_ok H_RESPONSE_BODY_DATA H_RESPONSE_COMPLETE (rev new) false = true).
+      { exists (X ++ new1). split; [rewrite EX, Ec, E1; apply app_assoc|]. rewrite rev_app_distr. apply M1. exact FX. }
+      destruct (tx_finalize cb g i c') as [[] c2]; cbn [snd] in *; exact G. }
+    destruct (negb hybrid && _); [apply W; reflexivity|]. destruct (negb hybrid && _); [apply W; reflexivity|]. apply W; reflexivity. }
   destruct (negb (t_response_progress t =? c_HTP_RESPONSE_COMPLETE)).
   2:{ apply (Htail ST_OK c []); [reflexivity|]. intros X FX. cbn [rev app]. apply bd_marker_none.
       apply Forall_rev. eapply Forall_impl; [|exact FX]. cbn. intros e He. rewrite He. discriminate. }
